@@ -9,40 +9,75 @@ From V Require Import Lib.Base C21.Model C21.Proofs.
    tip), one callback per message, AwaitReply produces none; what has been taken
    is a prefix of what the server emitted.  At most the callback of the message
    in the handler is still due. *)
-Theorem C21_callbacks : forall limit ls s,
-  run limit init ls = Some s ->
-  cblog s ++ pend (hp s) = replies_of (dlv s) /\ dlv s ++ inq s = hist s.
+Theorem C21_callbacks : forall limit p ls s,
+  run limit (init_p p) ls = Some s ->
+  cblog s ++ inflight s ++ pend (hp s) = replies_of (dlv s) /\ dlv s ++ inq s = hist s.
 Proof.
-  intros limit ls s HR. apply (kinv_run limit ls init s); [|exact HR]. split; reflexivity.
+  intros limit p ls s HR.
+  destruct (kinv_run limit ls (init_p p) s (kinv_init p) HR) as (A & B & _). auto.
 Qed.
 Print Assumptions C21_callbacks.
 
-Corollary C21_callbacks_quiescent : forall limit ls s,
-  run limit init ls = Some s -> inq s = [] -> pend (hp s) = [] -> cblog s = replies_of (hist s).
+Corollary C21_callbacks_quiescent : forall limit p ls s,
+  run limit (init_p p) ls = Some s -> inq s = [] -> inflight s = [] -> pend (hp s) = [] ->
+  cblog s = replies_of (hist s).
 Proof.
-  intros limit ls s HR HQ HP. destruct (C21_callbacks _ _ _ HR) as [A B].
-  rewrite HP, app_nil_r in A. rewrite HQ, app_nil_r in B. congruence.
+  intros limit p ls s HR HQ HF HP. destruct (C21_callbacks _ _ _ _ HR) as [A B].
+  rewrite HF, HP in A. cbn in A. rewrite app_nil_r in A. rewrite HQ, app_nil_r in B. congruence.
+Qed.
+
+(* C21_pipeline_rollback_order.  With a block pipeline (config.Pipeline != nil) roll-forward
+   blocks are applied by the pipeline's ApplyFunc, asynchronously, while the roll-backward
+   callback is made by the handler.  In every reachable state, every schedule of the
+   pipeline's apply stage against recvLoop and syncLoop: the merged log of ApplyFunc and
+   RollBackwardFunc calls is a prefix of the server's updates in the server's order; in
+   particular, when a RollBackwardFunc call is the last entry of the log, every update the
+   server sent before that roll-backward has already been applied (nothing earlier is in
+   flight).  This rests on the drain-before-rollback guard of handleRollBackward. *)
+Theorem C21_pipeline_rollback_order : forall limit ls s,
+  run limit (init_p true) ls = Some s ->
+  (exists rest, replies_of (hist s) = cblog s ++ rest)
+  /\ (forall pre s0 h t, cblog s = pre ++ [RollBackward s0 h t] ->
+        exists n, firstn n (replies_of (hist s)) = pre ++ [RollBackward s0 h t]).
+Proof.
+  intros limit ls s HR. destruct (C21_callbacks _ _ _ _ HR) as [A B].
+  assert (E : replies_of (hist s) = cblog s ++ (inflight s ++ pend (hp s)) ++ replies_of (inq s)).
+  { rewrite <- B, replies_of_app, <- A, <- !app_assoc. reflexivity. }
+  split; [eexists; exact E|].
+  intros pre s0 h t HC. exists (length (cblog s)). rewrite E, firstn_app, Nat.sub_diag, firstn_all.
+  cbn. rewrite app_nil_r. exact HC.
+Qed.
+Print Assumptions C21_pipeline_rollback_order.
+
+(* the guard is what makes it true: in the LTS the roll-backward callback is enabled only
+   when the pipeline is empty *)
+Theorem C21_rollback_waits_for_drain : forall limit s u s',
+  pipe s = true -> step limit s (LCb u) = Some s' -> inflight s = [].
+Proof.
+  intros limit s u s' HP Hs. cbn in Hs. destruct (hp s); try discriminate.
+  rewrite HP in Hs. cbn in Hs. destruct (inflight s); [reflexivity|].
+  rewrite andb_false_r in Hs. discriminate.
 Qed.
 
 (* C21_outstanding: requests sent minus replies handled (and a fortiori minus replies
    the server emitted) never exceeds max(PipelineLimit, 1). *)
-Theorem C21_outstanding : forall limit ls s,
-  run limit init ls = Some s ->
+Theorem C21_outstanding : forall limit p ls s,
+  run limit (init_p p) ls = Some s ->
   sent s - recv s <= Nat.max limit 1 /\ recv s <= replied s /\ replied s <= sent s.
 Proof.
-  intros limit ls s HR.
-  destruct (inv_run limit ls init s (inv_init limit) HR) as (A & B & C & D).
+  intros limit p ls s HR.
+  destruct (inv_run limit ls (init_p p) s (inv_init limit p) HR) as (A & B & C & D).
   pose proof (L_pos limit) as LP. unfold L in *.
   destruct (sl s); lia.
 Qed.
 Print Assumptions C21_outstanding.
 
 (* the counter itself stays below the limit *)
-Theorem C21_counter : forall limit ls s,
-  run limit init ls = Some s -> counter s <= Nat.max limit 1 - 1.
+Theorem C21_counter : forall limit p ls s,
+  run limit (init_p p) ls = Some s -> counter s <= Nat.max limit 1 - 1.
 Proof.
-  intros limit ls s HR.
-  destruct (inv_run limit ls init s (inv_init limit) HR) as (A & B & C & D).
+  intros limit p ls s HR.
+  destruct (inv_run limit ls (init_p p) s (inv_init limit p) HR) as (A & B & C & D).
   unfold L in *. destruct (sl s); lia.
 Qed.
 
@@ -51,12 +86,12 @@ Qed.
    syncLoop has taken a ready signal and waits for busyMutex (held by Stop) while a
    handler holds lifecycleMutex blocked on a FULL readyForNextBlockChan.  That
    configuration is unreachable, for every limit: Stop always gets lifecycleMutex. *)
-Theorem C21_stop_no_wait_cycle : forall limit ls s,
-  run limit init ls = Some s ->
+Theorem C21_stop_no_wait_cycle : forall limit p ls s,
+  run limit (init_p p) ls = Some s ->
   ~ (hp s = HReady /\ sl s = SGot /\ limit <= rdy s).
 Proof.
-  intros limit ls s HR (H1 & H2 & H3).
-  destruct (inv_run limit ls init s (inv_init limit) HR) as (A & B & C & D).
+  intros limit p ls s HR (H1 & H2 & H3).
+  destruct (inv_run limit ls (init_p p) s (inv_init limit p) HR) as (A & B & C & D).
   rewrite H2 in D. unfold uh in D. rewrite H1 in D. unfold L in D. lia.
 Qed.
 Print Assumptions C21_stop_no_wait_cycle.
@@ -85,3 +120,13 @@ Proof.
   intros t a. exists ([LSrvReply a; LDeliver; LCb a; LPush; LTake; LProc] ++ repeat LSendReq 100).
   eexists. split; [vm_compute; reflexivity|]. cbn. lia.
 Qed.
+
+(* non-vacuity of the pipeline clause: two blocks in flight, the rollback waits *)
+Example C21_pipeline_nonvacuous :
+  let t := {| tslot := 9; thash := []; tblock := 3 |} in
+  let a := RollForward 5 [] t in let b := RollBackward 4 [] t in
+  exists s, run 3 (init_p true) [LSrvReply a; LDeliver; LPush; LTake; LProc; LSendReq; LSendReq; LSendReq; LSendEnd;
+                                 LSrvReply a; LSrvReply b; LDeliver; LPush; LDeliver] = Some s
+            /\ inflight s = [a; a] /\ hp s = HCb b /\ step 3 s (LCb b) = None
+            /\ exists s', run 3 s [LApply a; LApply a; LCb b] = Some s' /\ cblog s' = [a; a; b].
+Proof. eexists. split; [vm_compute; reflexivity|]. repeat split. eexists. split; vm_compute; reflexivity. Qed.
